@@ -6,7 +6,7 @@ class LTLParserErrorListener( ErrorListener ):
         raise RTAMTException (str(line) + ":" + str(column) + ": Syntax ERROR, " + str(msg))
 
     def reportAmbiguity(self, recognizer, dfa, startIndex, stopIndex, exact, ambigAlts, configs):
-        raise RTAMTException("Ambiguity ERROR, " + str(configs))
+        pass
 
     def reportAttemptingFullContext(self, recognizer, dfa, startIndex, stopIndex, conflictingAlts, configs):
         pass
